@@ -219,7 +219,30 @@ static J project(World &w) {
     return m;
 }
 
-static void run(const Scenario &sc, Reporter &rep) {
+// exploration mode (code -> spec direction): random schedules on the real code, every step logged as
+// one ndjson line {"a":action,"t":thread,"p":projection}; runs are separated by {"a":"Reset"}.  The log is
+// validated by TLC against spec/Future/FutureTrace.tla.
+struct Explore {
+    FILE *out;
+    std::uint64_t rng;
+    std::uint64_t next() { rng ^= rng << 13; rng ^= rng >> 7; rng ^= rng << 17; return rng; }
+};
+
+static const char *action_of(const std::string &pend) {
+    if (pend == "claim") return "Claim";
+    if (pend == "dtor") return "DtorStart";
+    if (pend == "dload") return "DLoad";
+    if (pend == "swap") return "SwapReady";
+    if (pend == "flagstore") return "FlagStore";
+    if (pend == "notify") return "Notify";
+    if (pend == "check") return "CheckReady";
+    if (pend == "cas") return "SubCAS";
+    if (pend == "fence") return "Fence";
+    if (pend == "wait") return "FlagWait";
+    return "Unknown";
+}
+
+static void run_one(const Scenario &sc, Reporter &rep, Explore *ex) {
     World w;
     for (auto &kv : sc.hdr.at("R").m) { w.rkind[kv.first] = kv.second.s; w.rres[kv.first] = "none"; }
     for (auto &kv : sc.hdr.at("W").m) { w.wkind[kv.first] = kv.second.s; w.recs[kv.first]; }
@@ -312,7 +335,23 @@ static void run(const Scenario &sc, Reporter &rep) {
     }
     bool bad = false;
     (void) project(w);   // learn the awaiter node addresses of threads already parked at their CAS
-    for (std::size_t k = 0; k < sc.steps.size() && !bad; k++) {
+    if (ex) {
+        std::vector<std::string> names;
+        for (auto &kv : w.rkind) names.push_back(kv.first);
+        for (auto &kv : w.wkind) names.push_back(kv.first);
+        for (;;) {
+            std::vector<std::string> en;
+            for (auto &n : names) if (w.sched.enabled(w.tid[n])) en.push_back(n);
+            if (en.empty()) break;
+            const std::string &n = en[ex->next() % en.size()];
+            std::string act = action_of(pend_of(w, n, w.rkind.count(n) != 0));
+            w.sched.step(w.tid[n]);
+            fprintf(ex->out, "{\"a\":\"%s\",\"t\":\"%s\",\"p\":%s}\n", act.c_str(), n.c_str(), project(w).dump().c_str());
+        }
+        if (!w.sched.all_done()) fprintf(ex->out, "{\"a\":\"Deadlock\",\"t\":\"none\",\"p\":%s}\n", project(w).dump().c_str());
+        fprintf(ex->out, "{\"a\":\"Reset\",\"t\":\"none\",\"p\":{}}\n");
+    }
+    for (std::size_t k = 0; !ex && k < sc.steps.size() && !bad; k++) {
         const Step &st = sc.steps[k];
         auto it = w.tid.find(st.sarg(0));
         if (it == w.tid.end()) { rep.error(k, "unknown thread"); bad = true; break; }
@@ -328,7 +367,7 @@ static void run(const Scenario &sc, Reporter &rep) {
     // finish whatever is left (only after a divergence; paths end in terminal states)
     bool drained = w.sched.drain();
     if (!drained && !bad) rep.diverge(sc.steps.size() - 1, "deadlock: threads blocked at the end of the schedule got=" + project(w).dump());
-    if (drained && !bad) {
+    if (drained && !bad && !ex) {
         for (auto &kv : w.wkind) {
             Rec &r = w.recs[kv.first];
             if (!r.done || r.resumes != 1) { rep.diverge(sc.steps.size() - 1, "waiter " + kv.first + " not released exactly once at the end"); break; }
@@ -345,6 +384,16 @@ static void run(const Scenario &sc, Reporter &rep) {
     if (!w.fut.ready()) {
         // never resolved (no resolver in the scenario): resolve to allow destruction of parked coroutines
     }
+}
+
+static void run(const Scenario &sc, Reporter &rep) {
+    if (!sc.hdr.has("explore")) { run_one(sc, rep, nullptr); return; }
+    const JV &e = sc.hdr.at("explore");
+    FILE *f = fopen(e.at("out").as_str().c_str(), "w");
+    if (!f) { rep.error(0, "cannot open trace output"); return; }
+    Explore ex{f, (std::uint64_t) e.at("seed").as_int(1) * 2654435761ULL + 88172645463325252ULL};
+    for (long i = 0; i < e.at("runs").as_int(1); i++) run_one(sc, rep, &ex);
+    fclose(f);
 }
 
 int main() {
